@@ -3,7 +3,8 @@ MultiEndpoint, two statements that were monitors only:
 
 * C13 `list_and_priorities`: after any history the table holds exactly the endpoints of the last
   accepted list (the constructor's or the last accepted SetEndpoints'), each once, and an endpoint's
-  priority is a position at which the list names it (its last occurrence).
+  priority is a position at which the list names it. (This is the machine `stepRaw`/`initRaw`; the API
+  drops later repetitions of a name first, so that position is the first occurrence: Proofs/MEApi.lean.)
 * C14 `recovering_timer_count`: there are at least as many live recovery timers as recovering
   endpoints (a counting consequence of the per-endpoint timer invariant `TInv.recov`).
 -/
@@ -96,12 +97,12 @@ theorem vw_opFire (s : St) (tid : Nat) : vw (opFire s tid).1 = vw s := by
 /-- no operation other than an accepted SetEndpoints changes which endpoints the table holds or
     their priorities -/
 theorem vw_step (s : St) (op : Op) (h : ∀ l, op = .setEndpoints l → l.isEmpty = true) :
-    vw (step s op).1 = vw s := by
+    vw (stepRaw s op).1 = vw s := by
   cases op with
-  | setAvail e a => simp only [step, opSetAvail]; rw [vw_muc, vw_sea]
+  | setAvail e a => simp only [stepRaw, opSetAvail]; rw [vw_muc, vw_sea]
   | setEndpoints l =>
     have := h l rfl
-    simp [step, opSetEndpoints, this]
+    simp [stepRaw, opSetEndpoints, this]
   | advance dt => rfl
   | fire tid => exact vw_opFire s tid
 
@@ -286,11 +287,11 @@ theorem initLoop_list {s : St} {done rest : List String} (h : IInv s done) :
         rw [hf.2.2.2.2.1, hf.2.2.2.2.2]
         simp
 
-theorem init_list {r d : Int} {l : List String} {s : St} (h : init r d l = some s) : ListOk s l := by
+theorem init_list {r d : Int} {l : List String} {s : St} (h : initRaw r d l = some s) : ListOk s l := by
   cases l with
-  | nil => simp [init] at h
+  | nil => simp [initRaw] at h
   | cons first rest =>
-    simp only [init, Option.some.injEq] at h
+    simp only [initRaw, Option.some.injEq] at h
     subst h
     have h0 : IInv { r := r, d := d, eps := [], orphans := [], current := first, future := "",
                      timers := [], now := 0, nextObj := 0, nextTid := 0 } [] := by
@@ -308,26 +309,26 @@ def lastList (l : List String) : Op → List String
 
 /-- reachability together with the last accepted list (ghost) -/
 inductive ReachL : St → List String → Prop where
-  | init {r d : Int} {l : List String} {s : St} : 0 ≤ r → 0 ≤ d → init r d l = some s → ReachL s l
-  | step {s : St} {l : List String} (op : Op) : ReachL s l → ReachL (step s op).1 (lastList l op)
+  | initRaw {r d : Int} {l : List String} {s : St} : 0 ≤ r → 0 ≤ d → initRaw r d l = some s → ReachL s l
+  | stepRaw {s : St} {l : List String} (op : Op) : ReachL s l → ReachL (stepRaw s op).1 (lastList l op)
 
 theorem ReachL.reach {s : St} {l : List String} (h : ReachL s l) : Reach s := by
   induction h with
-  | init hr hd hi => exact Reach.init hr hd hi
-  | step op _ ih => exact Reach.step op ih
+  | initRaw hr hd hi => exact Reach.initRaw hr hd hi
+  | stepRaw op _ ih => exact Reach.stepRaw op ih
 
 theorem reach_has_list {s : St} (h : Reach s) : ∃ l, ReachL s l := by
   induction h with
-  | init hr hd hi => exact ⟨_, ReachL.init hr hd hi⟩
-  | step op _ ih => obtain ⟨l, hl⟩ := ih; exact ⟨_, ReachL.step op hl⟩
+  | initRaw hr hd hi => exact ⟨_, ReachL.initRaw hr hd hi⟩
+  | stepRaw op _ ih => obtain ⟨l, hl⟩ := ih; exact ⟨_, ReachL.stepRaw op hl⟩
 
 /-- **C13** after any history — reports, list replacements (accepted or rejected), clock advances,
     timers firing — the table holds exactly the endpoints of the last accepted list, each once, and
     every endpoint's priority is a position at which that list names it -/
 theorem list_and_priorities {s : St} {l : List String} (h : ReachL s l) : ListOk s l := by
   induction h with
-  | init _ _ hi => exact init_list hi
-  | @step s l op _ ih =>
+  | initRaw _ _ hi => exact init_list hi
+  | @stepRaw s l op _ ih =>
     by_cases hop : ∀ l', op = .setEndpoints l' → l'.isEmpty = true
     · have hl : lastList l op = l := by
         cases op with
@@ -346,15 +347,16 @@ theorem list_and_priorities {s : St} {l : List String} (h : ReachL s l) : ListOk
         | advance dt => exact absurd (fun _ h' => by cases h') hop
         | fire t => exact absurd (fun _ h' => by cases h') hop
       obtain ⟨l', rfl, hl'⟩ := this
-      simp only [lastList, hl', Bool.false_eq_true, ↓reduceIte, step]
+      simp only [lastList, hl', Bool.false_eq_true, ↓reduceIte, stepRaw]
       exact setEndpoints_list s l' hl' ih.nd
 
 theorem reach_ids_nodup {s : St} (h : Reach s) : (ids s.eps).Nodup := by
   obtain ⟨l, hl⟩ := reach_has_list h
   exact (list_and_priorities hl).nd
 
+-- the raw machine on a list with a repetition (the API never passes it one, see MEApi.lean)
 example : ∃ s, ReachL s ["b", "a", "b"] ∧ vw s = [("a", 1), ("b", 2)] :=
-  ⟨_, ReachL.init (r := 5) (d := 0) (l := ["b", "a", "b"]) (by decide) (by decide) rfl, by decide⟩
+  ⟨_, ReachL.initRaw (r := 5) (d := 0) (l := ["b", "a", "b"]) (by decide) (by decide) rfl, by decide⟩
 
 /-! ### C14: at least as many live recovery timers as recovering endpoints -/
 
